@@ -92,6 +92,7 @@ func rulesC15(c *Ctx) {
 		"NOT decided: every inequality of the statement over all integers and interleavings (rounding accumulation, that no account's redeemable value falls because of another's operation, slashing proportionality beyond the formula shape, uniqueness of payout across blocks); these quantify over values and histories.")
 
 	rulesC15Round2(c)
+	c15Round3(c)
 
 	// ---- (a) price shape
 	if fn := c.needFn("C15.price", pkStakingAPI+".(*SharePool).sharesForStake"); fn != nil {
